@@ -203,3 +203,52 @@ def replace_idents(text, fn):
             last = e
     out.append(text[last:])
     return ''.join(out)
+
+
+def split_items(src):
+    """Split a Source into its top-level items.  -> list of (start, end, header) where text[start:end] is the
+    item including the comments / attributes in front of it and `header` is the item text from its first
+    code character (attributes included) up to its body or terminating ';'."""
+    text, mask = src.text, src.mask
+    n = len(text)
+    items = []
+    pos = 0
+    i = 0
+    while i < n:
+        # next code character at depth 0
+        while i < n and (not mask[i] or text[i].isspace()):
+            i += 1
+        if i >= n:
+            break
+        first = i
+        pd = 0
+        j = i
+        end = None
+        while j < n:
+            if mask[j]:
+                c = text[j]
+                if c in '([':
+                    pd += 1
+                elif c in ')]':
+                    pd -= 1
+                elif c == ';' and pd == 0:
+                    end = j + 1
+                    break
+                elif c == '{' and pd == 0:
+                    k = match_brace(text, mask, j)
+                    end = k + 1
+                    # `use a::{b, c};` and similar: swallow a directly following ';'
+                    m = end
+                    while m < n and (text[m] in ' \t'):
+                        m += 1
+                    if m < n and text[m] == ';' and mask[m]:
+                        end = m + 1
+                    # `#[attr] ... { }` where the brace belonged to an attribute argument cannot happen at depth 0
+                    break
+            j += 1
+        if end is None:
+            raise AnchorLost('%s: unterminated top-level item near line %d' % (src.path, src.line_of(first)))
+        items.append((pos, end, text[first:j if j < n else end]))
+        pos = end
+        i = end
+    return items
